@@ -173,9 +173,14 @@ func genC15TLS(r *Rand) *Case {
 	if r.Chance(1, 3) {
 		// a peer that asks for TLS and then goes silent (it never starts the
 		// handshake and keeps the connection open): the others are not its hostages
-		c.Conns = append(c.Conns, ConnCase{Steps: []Step{{Msgs: []pgwire.FMsg{{K: "ssl"}}}}, NoEOF: true})
+		for k := r.PickInt(1, 1, 1, 33); k > 0; k-- {
+			c.Conns = append(c.Conns, ConnCase{Steps: []Step{{Msgs: []pgwire.FMsg{{K: "ssl"}}}}, NoEOF: true})
+		}
 	}
 	n := r.Range(2, 3)
+	if len(c.Conns) > 10 {
+		n = 2 // (the scheduler has room for 40 tasks)
+	}
 	for i := 0; i < n; i++ {
 		key := fmt.Sprintf("t%d", i)
 		c.Programs[key] = &Program{Stmts: []*StmtProg{{Cols: []ColSpec{{Name: "v", OID: pgwire.OIDText}}, Ops: []Op{{K: "row", Row: []Val{{G: "string", S: key}}}, {K: "complete", Tag: "SELECT 1"}}}}}
@@ -250,6 +255,9 @@ func init() {
 				return genC15TLS(r)
 			}
 			c := genConcurrent(r, r.Range(2, 5), histOpts{simple: true, extended: true, copy: r.Chance(1, 3), errs: true, params: true, binary: true, rich: true, typedNull: true, closes: true, unknownNames: true, multi: true, maxUnits: 4}, r.PickInt(1000, 4096, 65536))
+			// (how many ExtendTypes options the server was given decides the spare
+			// capacity of the slice they are kept in)
+			c.Server.ExtendTypes = r.PickInt(0, 0, 1, 2, 3, 4, 5, 6, 7)
 			// half of the sets run on a server with user-supplied global parameters,
 			// middlewares and callbacks that read their context back (client and
 			// server parameters, user, remote address): per-connection values that
